@@ -1,6 +1,140 @@
-import HranoModel.Model.Options
-import HranoModel.Model.Sink
-import HranoModel.Model.Chan
-/-! C18 property theorems (statements only in this file; helper lemmas live in Lemmas/) -/
+import HranoModel.Lemmas.Chan
+/-!
+C18 — the channel parser delivers the callback parser's result under every schedule.
+
+Property theorems only (helper lemmas: `Lemmas/Chan.lean`).  The model (`Model/Chan.lean`) is
+the producer of `ParseStream` / `ParseFile` after the fixes recorded in known-findings.txt, a
+consumer with one of the two policies, three rendezvous channels and explicit scheduling
+choices.  "Every interleaving" is: every configuration reachable by any sequence of enabled
+transitions.
+
+What the model cannot exhibit: data races, memory-model effects, scheduler starvation.
+-/
 namespace Hrano.C18
+open Hrano Hrano.Chan
+
+/-- every execution is finite: a natural-number measure drops at every transition -/
+theorem every_schedule_terminates (pol : Policy) (cfg cfg' : Config) (ch : Choice)
+    (h : step pol cfg ch = some cfg') : measure cfg' < measure cfg :=
+  step_measure pol cfg cfg' ch h
+
+/-- the producer's message list always ends with `Done`, which is sent exactly once -/
+theorem sends_end_with_done (evs : List Event) (scanErr : Bool) :
+    ∃ pre, sends evs scanErr = pre ++ [Msg.done] ∧ Msg.done ∉ pre := by
+  unfold sends
+  induction evs with
+  | nil =>
+    cases scanErr
+    · exact ⟨[], by simp [sends.go], by simp⟩
+    · exact ⟨[Msg.ioerr], by simp [sends.go], by simp⟩
+  | cons ev r ih =>
+    cases ev with
+    | node n =>
+      obtain ⟨pre, h1, h2⟩ := ih
+      exact ⟨Msg.node n :: pre, by simp [sends.go, h1], by simp [h2]⟩
+    | error e => exact ⟨[Msg.perr e], by simp [sends.go], by simp⟩
+
+/-- **Main theorem.**  In every terminal configuration reachable under any schedule, the consumer has
+    returned and has received exactly the prefix of the producer's messages up to and including the
+    first one its policy stops at — a function of the input and the policy alone. -/
+theorem terminal_received (pol : Policy) (ms : List Msg) (hdone : Msg.done ∈ ms) (cfg : Config)
+    (hr : Reachable pol ms cfg) (ht : terminal pol cfg = true) :
+    cfg.c = CState.returned ∧ cfg.received = expected pol ms := by
+  have inv := inv_reachable pol ms cfg hr
+  obtain ⟨hs, hc⟩ := inv
+  obtain ⟨p, c, rcv⟩ := cfg
+  simp only at hs hc
+  cases c with
+  | handling m => simp [terminal, step] at ht
+  | returned =>
+    obtain ⟨ini, m, hrcv, hm, hini⟩ := hc
+    refine ⟨rfl, ?_⟩
+    show rcv = expected pol ms
+    rw [← hs, hrcv, List.append_assoc]
+    simp only [List.singleton_append]
+    rw [expected_prefix pol ini m _ hini hm]
+  | selecting =>
+    exfalso
+    cases p with
+    | working r => cases r <;> simp [terminal, step] at ht
+    | offering m r => simp [terminal, step] at ht
+    | exited =>
+      simp [remaining] at hs
+      subst hs
+      have := hc Msg.done hdone
+      simp [stops] at this
+
+/-- the documented consumer (return at the first error or at Done) sees the records before the first
+    error, in order, followed by that error or by completion -/
+theorem documented_consumer (evs : List Event) (scanErr : Bool) (cfg : Config)
+    (hr : Reachable .stopAtFirstError (sends evs scanErr) cfg) (ht : terminal .stopAtFirstError cfg = true) :
+    cfg.c = CState.returned ∧ cfg.received = expected .stopAtFirstError (sends evs scanErr) := by
+  obtain ⟨pre, h1, _⟩ := sends_end_with_done evs scanErr
+  exact terminal_received _ _ (by rw [h1]; simp) cfg hr ht
+
+/-- a consumer that keeps receiving until Done sees every message exactly once (in particular each
+    error once), and the producer goroutine has then exited -/
+theorem draining_consumer (evs : List Event) (scanErr : Bool) (cfg : Config)
+    (hr : Reachable .drain (sends evs scanErr) cfg) (ht : terminal .drain cfg = true) :
+    cfg.c = CState.returned ∧ cfg.received = sends evs scanErr ∧ cfg.p = PState.exited := by
+  obtain ⟨pre, h1, hpre⟩ := sends_end_with_done evs scanErr
+  have hnostop : ∀ x ∈ pre, stops .drain x = false := by
+    intro x hx
+    cases x with
+    | done => exact absurd hx hpre
+    | node _ => rfl
+    | perr _ => rfl
+    | ioerr => rfl
+  have hexp : expected .drain (sends evs scanErr) = sends evs scanErr := by
+    rw [h1]
+    have := expected_prefix .drain pre Msg.done [] hnostop rfl
+    simpa using this
+  have ⟨hc, hrcv⟩ := terminal_received .drain _ (by rw [h1]; simp) cfg hr ht
+  refine ⟨hc, hrcv.trans hexp, ?_⟩
+  have inv := inv_reachable _ _ cfg hr
+  have hsplit := inv.split
+  rw [hrcv, hexp] at hsplit
+  have hrem : remaining cfg.p = [] := by simpa using hsplit
+  obtain ⟨p, c, rcv⟩ := cfg
+  cases p with
+  | exited => rfl
+  | offering m r => simp [remaining] at hrem
+  | working r =>
+    simp [remaining] at hrem
+    subst hrem
+    simp [terminal, step] at ht
+
+/-- the same for `ParseFile` on a path that cannot be opened: the I/O error once, then Done -/
+theorem unreadable_file_drains (cfg : Config)
+    (hr : Reachable .drain sendsUnreadable cfg) (ht : terminal .drain cfg = true) :
+    cfg.c = CState.returned ∧ cfg.received = [Msg.ioerr, Msg.done] := by
+  have := terminal_received .drain sendsUnreadable (by simp [sendsUnreadable]) cfg hr ht
+  simpa [sendsUnreadable, expected, stops] using this
+
+/-- any schedule whatsoever, followed to a terminal configuration, yields the same received sequence -/
+theorem schedule_independent (pol : Policy) (evs : List Event) (scanErr : Bool) (s₁ s₂ : List Choice)
+    (h₁ : terminal pol (runSchedule pol s₁ (init (sends evs scanErr))) = true)
+    (h₂ : terminal pol (runSchedule pol s₂ (init (sends evs scanErr))) = true) :
+    (runSchedule pol s₁ (init (sends evs scanErr))).received = (runSchedule pol s₂ (init (sends evs scanErr))).received := by
+  obtain ⟨pre, h1, _⟩ := sends_end_with_done evs scanErr
+  have hd : Msg.done ∈ sends evs scanErr := by rw [h1]; simp
+  have r₁ := terminal_received pol _ hd _ (runSchedule_reachable pol _ s₁ _ Reachable.init) h₁
+  have r₂ := terminal_received pol _ hd _ (runSchedule_reachable pol _ s₂ _ Reachable.init) h₂
+  rw [r₁.2, r₂.2]
+
+/-! non-vacuity: a concrete input with a record, a malformed line and a further record; two different
+    complete schedules reach terminal configurations -/
+def demoEvents : List Event :=
+  [.node ⟨[50], [], []⟩, .error (.badSyntax 3 [32, 120]), .node ⟨[51], [], []⟩]
+
+def roundRobin (n : Nat) : List Choice := (List.replicate n [Choice.producerStep, .rendezvous, .consumerStep]).flatten
+def eager (n : Nat) : List Choice := (List.replicate n [Choice.consumerStep, .producerStep, .producerStep, .rendezvous]).flatten
+
+example : terminal .drain (runSchedule .drain (roundRobin 6) (init (sends demoEvents false))) = true := by decide
+example : terminal .drain (runSchedule .drain (eager 6) (init (sends demoEvents false))) = true := by decide
+example : (runSchedule .drain (eager 6) (init (sends demoEvents false))).received
+    = [.node ⟨[50], [], []⟩, .perr (.badSyntax 3 [32, 120]), .done] := by decide
+example : (runSchedule .stopAtFirstError (roundRobin 6) (init (sends demoEvents false))).received
+    = [.node ⟨[50], [], []⟩, .perr (.badSyntax 3 [32, 120])] := by decide
+
 end Hrano.C18
